@@ -297,10 +297,12 @@ ParsePropValue(pr, have, b, p) ==
 CanonPropLen(pr, v) == IF pr.ty = "pair" THEN 1 + 4 + Len(v[1]) + Len(v[2]) ELSE 1 + Len(EncPropValue(pr, v))
 
 \* while declared > counted: id, whitelist, value.  `counted` is the canonical size of what was stored.
-RECURSIVE PropLoop(_, _, _, _, _, _, _)
-PropLoop(set, ptyp, b, p, plen, counted, props) ==
+\* (user properties are accumulated in a separate sequence: updating a record field per property makes TLC
+\* copy the whole record each time, which is quadratic for long user-property lists)
+RECURSIVE PropLoop(_, _, _, _, _, _, _, _)
+PropLoop(set, ptyp, b, p, plen, counted, props, users) ==
     IF plen <= counted THEN
-        (IF plen # counted THEN ERR("InvalidPropertyLength", <<plen>>) ELSE OK(props, p))
+        (IF plen # counted THEN ERR("InvalidPropertyLength", <<plen>>) ELSE OK([props EXCEPT !.user = users], p))
     ELSE
         LET idr == RU8(b, p) IN IF ~IsOk(idr) THEN idr ELSE
         LET pr == PropById[idr.v] IN
@@ -309,14 +311,16 @@ PropLoop(set, ptyp, b, p, plen, counted, props) ==
             (IF set = "Will" THEN ERR("InvalidWillProperty", <<pr.name>>) ELSE ERR("InvalidProperty", <<ptyp, pr.name>>))
         ELSE
             LET vr == ParsePropValue(pr, props[pr.key], b, idr.p) IN IF ~IsOk(vr) THEN vr ELSE
-            PropLoop(set, ptyp, b, vr.p, plen, counted + CanonPropLen(pr, vr.v),
-                     IF pr.ty = "pair" THEN [props EXCEPT !.user = Append(@, vr.v)]
-                     ELSE [props EXCEPT ![pr.key] = <<vr.v>>])
+            IF pr.ty = "pair" THEN
+                PropLoop(set, ptyp, b, vr.p, plen, counted + CanonPropLen(pr, vr.v), props, Append(users, vr.v))
+            ELSE
+                PropLoop(set, ptyp, b, vr.p, plen, counted + CanonPropLen(pr, vr.v),
+                         [props EXCEPT ![pr.key] = <<vr.v>>], users)
 
 \* result value: [props, canon = size the canonical encoder gives the whole block, w = bytes of the length prefix]
 ParseProps(set, ptyp, b, p) ==
     LET l == RVarInt(b, p) IN IF ~IsOk(l) THEN l ELSE
-    LET r == PropLoop(set, ptyp, b, l.p, l.v, 0, EmptyProps(set)) IN IF ~IsOk(r) THEN r ELSE
+    LET r == PropLoop(set, ptyp, b, l.p, l.v, 0, EmptyProps(set), <<>>) IN IF ~IsOk(r) THEN r ELSE
     OK([props |-> r.v, canon |-> VarIntLen(l.v) + l.v, w |-> l.w, plen |-> l.v], r.p)
 
 \* ------------------------------------------------------------------------------------------------
